@@ -159,6 +159,8 @@ std::string op_print(const Op &o)
                 break;
         case OP_ROUNDTRIP:
                 s << "roundtrip " << o.a;
+                if (o.b)
+                        s << " " << o.b << " " << o.c << " " << o.d; // event (command+1, type) triggered d service calls into the READ
                 break;
         case OP_SETVAR:
                 s << "setvar " << o.a << " " << o.b << " " << hexenc(o.data);
@@ -418,6 +420,8 @@ bool plan_parse(const std::string &text, Plan &p, std::string &err)
                         } else if (w == "roundtrip") {
                                 o.kind = OP_ROUNDTRIP;
                                 ls >> o.a;
+                                if (!(ls >> o.b >> o.c >> o.d))
+                                        o.b = o.c = o.d = 0;
                         } else if (w == "setvar") {
                                 o.kind = OP_SETVAR;
                                 ls >> o.a >> o.b >> x;
@@ -587,6 +591,8 @@ bool plan_valid(const Plan &p, std::string &why)
                 case OP_ROUNDTRIP:
                         if (o.a < 0 || o.a >= (int64_t)p.cmds.size())
                                 return bad("roundtrip op");
+                        if (o.b && (o.b < 1 || o.b > (int64_t)p.cmds.size() || !p.cmds[(size_t)o.b - 1].ev || (o.c != CT_READ && o.c != CT_TEST) || o.d < 0 || o.d > 100000))
+                                return bad("roundtrip event");
                         break;
                 case OP_SETVAR:
                         if (o.a < 0 || o.a >= (int64_t)p.cmds.size() || o.b < 0 || o.b >= (int64_t)p.cmds[(size_t)o.a].vars.size() ||
